@@ -43,7 +43,15 @@ PrefixOk(ms) == \A i \in 1..Len(ms) : ms[i] \in Positional =>
 \* members stay in parameter order, keyword callers and the wire use the public name
 Cases ==
   \* dflt: every argument's TYPE declares a default value (Dflt(i)): an argument that is not passed is that value, on both paths
-  { c \in [style : Styles, ret : Rets, modes : UNION {[1..n -> Modes] : n \in 0..3}, rename : BOOLEAN, dflt : BOOLEAN] :
+  \* aux: a second service declares the same method as an AUXILIARY one (SyncAuxProc) returning something else: it runs on the side,
+  \*      the caller gets the PRIMARY method's result on both paths
+  \* ostr: NullServer(ostr=True) - the direct caller gets the serialized response; the (lazily produced) result is serialized
+  \*      while the context is still open, as over the wire
+  { c \in [style : Styles, ret : Rets, modes : UNION {[1..n -> Modes] : n \in 0..3}, rename : BOOLEAN, dflt : BOOLEAN, aux : BOOLEAN, ostr : BOOLEAN] :
+      /\ (c.aux => (c.style = "wrapped" /\ ~c.rename /\ ~c.dflt /\ ~c.ostr /\ c.ret \in {"one", "two", "none", "fault"}
+                     /\ \A i \in 1..Len(c.modes) : c.modes[i] \in {"pos", "kw", "absent"}))
+      /\ (c.ostr => (c.style = "wrapped" /\ ~c.rename /\ ~c.dflt /\ c.ret \in {"gen", "one", "two"}
+                      /\ \A i \in 1..Len(c.modes) : c.modes[i] \in {"pos", "kw"}))
       /\ (c.dflt => (c.style = "wrapped" /\ ~c.rename /\ c.ret \in {"one", "none"} /\ Len(c.modes) >= 1
                       /\ \A i \in 1..Len(c.modes) : c.modes[i] \in {"pos", "kw", "absent", "kwzero"}))
       /\ (c.rename => (c.style = "wrapped" /\ Len(c.modes) >= 2 /\ c.ret \in {"one", "none"}))
@@ -86,11 +94,11 @@ NullResult(c) == Result(c)
 \* ------------------------------------------------------------------- clauses
 ArgsDirect(c, o)  == o.dargs = Packed(c)
 ArgsWire(c, o)    == o.wargs = Packed(c)
-ResultDirect(c, o) == o.dres = NullResult(c)
-ResultWire(c, o)   == o.wres = WireResult(c)
+ResultDirect(c, o) == o.dres[1] = NullResult(c)[1] /\ o.dres = NullResult(c)
+ResultWire(c, o)   == o.wres[1] = WireResult(c)[1] /\ o.wres = WireResult(c)
 \* the property itself: direct == wire (modulo the documented Ignored rule)
 SameAsWire(c, o)  == IF Ign(c) THEN o.dres[1] = "ignored" /\ o.wres = <<"value", <<>>>>
-                     ELSE o.dres = o.wres
+                     ELSE o.dres[1] = o.wres[1] /\ o.dres = o.wres      \* (tags first: the payloads of different tags are of different sorts)
 OnceEach(c, o)    == o.dcalls = 1 /\ o.wcalls = 1
 ClauseNames == {"ArgsDirect", "ArgsWire", "ResultDirect", "ResultWire", "SameAsWire", "OnceEach"}
 Holds(n, c, o) == CASE n = "ArgsDirect" -> ArgsDirect(c, o) [] n = "ArgsWire" -> ArgsWire(c, o)
